@@ -219,7 +219,10 @@ struct Table {
     q_len: UnsafeCell<usize>,
     q_bytes: UnsafeCell<usize>,
 }
+#[cfg(not(miri))]
 const QN: usize = 512;
+#[cfg(miri)]
+const QN: usize = 64;
 const Q_MAX_BYTES: usize = 48 << 20;
 unsafe impl Sync for Table {}
 
@@ -484,6 +487,28 @@ unsafe impl GlobalAlloc for Hostile {
                 );
                 if !ok {
                     t.overflow.set(true);
+                    if base != p {
+                        // the table is full: a skewed block could not be found again when it is
+                        // freed, so hand out a plain System block instead (untracked)
+                        drop(_g);
+                        System.dealloc(base, Layout::from_size_align_unchecked(real_size, real_align));
+                        let q = System.alloc(layout);
+                        record(
+                            t,
+                            Event {
+                                kind: EV_ALLOC,
+                                res: if q.is_null() { RES_SYSTEM_NULL } else { RES_OK },
+                                cand,
+                                size,
+                                align,
+                                ptr: q as usize,
+                                orig_size: 0,
+                                orig_align: 0,
+                                seq,
+                            },
+                        );
+                        return Some(q);
+                    }
                 }
             } else if base != p {
                 // skew without tracking is not supported: fall back is impossible, flag it
